@@ -343,7 +343,7 @@ def all_opt_views(p):
 def session_view(p, prev_ids=None):
     """discrete session state after a call, per model: optimizer / scheduler present, optimizer bound to the live
     parameters (its param group is, by identity and in order, what get_optimization_parameters() returns now),
-    a stored optimizer / scheduler configuration, whether the parameters are new tensor objects since `prev_ids`;
+    a stored optimizer / scheduler configuration, per parameter whether it is still the tensor object it was at `prev_ids`;
     plus iteration count and LR-history keys/lengths.  Returns (view, ids)."""
     view, ids = {}, {}
     for k in KEYS:
@@ -357,7 +357,7 @@ def session_view(p, prev_ids=None):
                    "sched_bound": None if m.scheduler is None else (m.scheduler.optimizer is o),
                    "cfg": bool(m.optimizer_params), "scfg": bool(m.scheduler_params),
                    "nstate": None if o is None else len(o.state),
-                   "fresh": None if prev_ids is None else not (set(cur) & set(prev_ids[k]))}
+                   "kept": None if prev_ids is None else [i in set(prev_ids[k]) for i in cur]}
     view["num_iters"] = int(p.num_iters)
     view["lrs"] = {k: len(v) for k, v in sorted(p._iter_lrs.items())}
     view["_keep"] = [t for k in KEYS for t in opt_params(model_of(p, k))]     # keeps the tensors alive: ids stay unique
@@ -388,10 +388,10 @@ class Trace:
                        (PtychographyOpt, "step_optimizers", PtychographyOpt.__dict__["step_optimizers"])]
         real_reconnect, real_record, real_reset, real_step = (s[2] for s in self._saved)
 
-        def reconnect(m):
+        def reconnect(m, *a, **kw):
             o = m._optimizer
             if o is None:
-                return real_reconnect(m)
+                return real_reconnect(m, *a, **kw)
             cur = [t for t in opt_params(m) if isinstance(t, torch.Tensor) and t.is_leaf]
             ids = {id(t): i for i, t in enumerate(cur)}
             keep = list(cur)     # keep every tensor alive so ids stay unique
@@ -408,7 +408,7 @@ class Trace:
                 return toks.setdefault(_tok(s), len(toks))
             before = [[pid(k), tk(s)] for k, s in o.state.items()]
             lr0 = float(o.param_groups[0]["lr"])
-            real_reconnect(m)
+            real_reconnect(m, *a, **kw)
             o2 = m._optimizer
             ev = {"ev": "reconnect", "cls": type(m).__name__, "cur": list(range(len(cur))), "old_params": old_params,
                   "before": before, "obj": id(m)}
@@ -421,26 +421,26 @@ class Trace:
                 ev["sched_bound"] = (m._scheduler is None) or (m._scheduler.optimizer is o2)
             tr.events.append(ev)
 
-        def record(p, loss):
+        def record(p, loss, *a, **kw):
             opts = [[k, f2b(o.param_groups[0]["lr"])] for k, o in p.optimizers.items()]
-            real_record(p, loss)
+            real_record(p, loss, *a, **kw)
             tr.events.append({"ev": "record", "obj": id(p), "opts": opts, "loss": f2b(loss),
                               "lrs": {k: [f2b(x) for x in v] for k, v in p._iter_lrs.items()},
                               "nloss": len(p._iter_losses)})
 
-        def reset(p):
+        def reset(p, *a, **k):         # (arguments a later version may add are passed through)
             try:
-                real_reset(p)
+                real_reset(p, *a, **k)
             finally:        # the histories are cleared before the optimizers are rebuilt (which may be rejected)
                 tr.events.append({"ev": "reset", "obj": id(p)})
 
-        def step(p):
+        def step(p, *a, **kw):
             masks = {}
             for k in p.optimizer_params.keys():
                 m = model_of(p, k)
                 if m.has_optimizer():
                     masks[k] = [t.grad is not None for t in opt_params(m)]
-            real_step(p)
+            real_step(p, *a, **kw)
             tr.events.append({"ev": "step", "obj": id(p), "grads": masks})
 
         OptimizerMixin.reconnect_optimizer_to_parameters = reconnect
